@@ -258,7 +258,8 @@ func (h *headerField) valid() bool {
 		}
 		return true
 	}
-	return false
+	// "A file format implementation should ignore fields with unknown tags": they are kept but not interpreted.
+	return len(h.value) == int(h.length)
 }
 
 func readData(b []byte, p *int, e *binary.ByteOrder) []byte {
